@@ -354,7 +354,7 @@ func flipCase(s string) string {
 // --- sequences of edits, each followed by an encoding ---------------------------------
 
 type c19Step struct {
-	Kind int    `json:"kind"` // 0 in-place element assignment, 1 in-place case flip, 2 replace the slice, 3 append, 4 delete, 5 put the original names back, 6 decode the original bytes into the same object again, 7 decode other bytes (the plain encoding of Name) into it
+	Kind int    `json:"kind"` // 0 in-place element assignment, 1 in-place case flip, 2 replace the slice, 3 append, 4 delete, 5 put the original names back, 6 decode the original bytes into the same object again, 7 decode other bytes (the plain encoding of Name) into it, 8 ask the object to decode malformed bytes (Idx selects them), 9 copy the object by value and decode other bytes into the copy
 	Idx  int    `json:"idx"`
 	Name string `json:"name"`
 }
@@ -365,7 +365,7 @@ type c19Seq struct {
 }
 
 var c19seq = newChk("C19", "edit-sequences",
-	"a label set parsed from generated (compressed) bytes, then 2..5 edits of its exported name list (in-place element assignment, case-only change, slice replacement, append, delete, restoring the original names, decoding the original or other bytes into the same object again) with an encoding after EVERY edit: each encoding must decode (independent reader) to exactly the names the set holds at that moment, and Length() must agree; non-trivial = ≥2 edits that change the list; distinct by case hash",
+	"a label set parsed from generated (compressed) bytes, then 2..5 edits of its exported name list (in-place element assignment, case-only change, slice replacement, append, delete, restoring the original names, decoding the original or other bytes into the same object again, asking it to decode bytes it must refuse, decoding into a by-value copy) with an encoding after EVERY edit: each encoding must decode (independent reader) to exactly the names the set holds at that moment, and Length() must agree; non-trivial = ≥2 edits that change the list; distinct by case hash",
 	func(rec *obs.Rec, c c19Seq) *obs.Fail {
 		l, err := rfc1035label.FromBytes(append([]byte{}, c.Wire...))
 		if err != nil {
@@ -374,6 +374,14 @@ var c19seq = newChk("C19", "edit-sequences",
 		orig := append([]string{}, l.Labels...)
 		cur := append([]string{}, orig...)
 		changes := 0
+		verbatim := append([]byte{}, c.Wire...) // non-nil while the set is "parsed from these bytes and not changed since"
+		plain := func(name string) []byte {
+			var w []byte
+			for _, lab := range strings.Split(name, ".") {
+				w = append(append(w, byte(len(lab))), lab...)
+			}
+			return append(w, 0)
+		}
 		for si, st := range c.Steps {
 			n := len(cur)
 			idx := 0
@@ -414,11 +422,7 @@ var c19seq = newChk("C19", "edit-sequences",
 				w := append([]byte{}, c.Wire...)
 				want := orig
 				if st.Kind == 7 {
-					w = nil
-					for _, lab := range strings.Split(st.Name, ".") {
-						w = append(append(w, byte(len(lab))), lab...)
-					}
-					w = append(w, 0)
+					w = plain(st.Name)
 					want = []string{st.Name}
 				}
 				if err := l.FromBytes(w); err != nil {
@@ -431,6 +435,28 @@ var c19seq = newChk("C19", "edit-sequences",
 				if out := l.ToBytes(); !bytes.Equal(out, w) {
 					return obs.Failf("C19/edit-sequence/redecode-not-verbatim", fmt.Sprintf("a set just parsed from %x re-encodes to exactly those bytes", clipb(w)), "%x", clipb(out))
 				}
+				verbatim = append([]byte{}, w...)
+			case 8:
+				// the unhappy path: the object is asked to decode bytes it must refuse. Whatever it holds afterwards (the
+				// names it exports are the reference), its encoding says exactly that — never the refused bytes
+				bad := [][]byte{{0xC0, 0xFF}, {0xC0}, {63, 'a'}, {3, 'a', 'b', 'c', 0xC0, 0x04, 0}, {0x40, 'x'}, {1, 'a', 0xC0, 0x02}}[st.Idx%6]
+				names0 := append([]string{}, l.Labels...)
+				err := l.FromBytes(append([]byte{}, bad...))
+				cur = append([]string{}, l.Labels...)
+				if err != nil && !namesEq(names0, cur) {
+					verbatim = nil
+				}
+				if err == nil {
+					verbatim = append([]byte{}, bad...)
+				}
+			case 9:
+				// a copy of the object by value is used as a decoder for other bytes: the original is another object
+				cp := *l
+				_ = cp.FromBytes(plain(st.Name))
+				_ = cp.ToBytes()
+			}
+			if st.Kind <= 5 && !namesEq(before, cur) {
+				verbatim = nil
 			}
 			if !namesEq(before, cur) {
 				changes++
@@ -443,6 +469,9 @@ var c19seq = newChk("C19", "edit-sequences",
 			}
 			if l.Length() != len(out) {
 				return obs.Failf("C19/edit-sequence/length", fmt.Sprint(len(out)), "%d after edit %d", l.Length(), si+1)
+			}
+			if verbatim != nil && !bytes.Equal(out, verbatim) {
+				return obs.Failf("C19/edit-sequence/not-verbatim", fmt.Sprintf("a set parsed from %x and not changed since re-encodes to exactly those bytes (after step %d, kind %d)", clipb(verbatim), si+1, st.Kind), "%x", clipb(out))
 			}
 		}
 		rec.Class(fmt.Sprintf("%d edits", len(c.Steps)))
@@ -458,7 +487,7 @@ func TestC19_EditSequencesRapid(t *testing.T) {
 	c19seq.rapidCheck(t, rapid.Custom(func(rt *rapid.T) c19Seq {
 		c := c19Seq{Wire: gen.LabelWireNoDots(false).Draw(rt, "wire")}
 		for k := rapid.IntRange(2, 5).Draw(rt, "nsteps"); k > 0; k-- {
-			c.Steps = append(c.Steps, c19Step{Kind: rapid.SampledFrom([]int{0, 0, 1, 2, 3, 4, 5, 6, 6, 7}).Draw(rt, "kind"), Idx: rapid.IntRange(0, 7).Draw(rt, "idx"), Name: gen.Name().Draw(rt, "name")})
+			c.Steps = append(c.Steps, c19Step{Kind: rapid.SampledFrom([]int{0, 0, 1, 2, 3, 4, 5, 6, 6, 7, 8, 8, 9, 9}).Draw(rt, "kind"), Idx: rapid.IntRange(0, 7).Draw(rt, "idx"), Name: gen.Name().Draw(rt, "name")})
 		}
 		return c
 	}))
